@@ -79,7 +79,7 @@ class SchemaField:
                 err = SchemaField._validate_value_number(
                     value, float, no_nonfinite=True
                 )
-            elif t in {"STRING", "MULTIPLESTRINGVALUE"}:
+            elif t in {"STRING", "MULTIPLESTRINGVALUE", "MULTIPLEVALUESTRING"}:
                 err = SchemaField._validate_value_str(value)
             elif t in {"CHAR"}:
                 err = SchemaField._validate_value_str(value, max_len=1)
